@@ -386,7 +386,7 @@ func c15TextAndScope(w *World, r *Report, rule string, want func(fn string) bool
 		for _, b := range f.Blocks {
 			for _, in := range b.Instrs {
 				c, ok := in.(*ssa.Call)
-				if !ok || c.Call.StaticCallee() == nil || !ctors[c.Call.StaticCallee().Name()] || len(c.Call.Args) < 2 {
+				if !ok || c.Call.StaticCallee() == nil || !ctors[nm(c.Call.StaticCallee())] || len(c.Call.Args) < 2 {
 					continue
 				}
 				// a helper only one of the named functions uses counts as that function
@@ -912,7 +912,7 @@ func c18ArgumentRoles(w *World, r *Report) {
 	seen := map[string]bool{}
 	sp := w.SSAPkg("schema")
 	for _, fn := range []string{"hasMandatoryChildren", "hasCaseMandatoryChildren", "checkMandatory", "isActiveDefault", "isActiveDefaultCase"} {
-		f := sp.Func(fn)
+		f := ssaFuncNamed(sp, fn)
 		if f == nil {
 			panic(undecided{"schema." + fn})
 		}
